@@ -112,7 +112,8 @@ def check(ctx, f, analysis, loader, UnsafeFileError, label, data):
     try:
         d = res.to_dict()
         js = json.dumps(d)
-        assert isinstance(d.get("severity"), str) and d["severity"] == res.severity.name
+        if not (isinstance(d.get("severity"), str) and d["severity"] == res.severity.name):
+            raise ValueError("report's severity field is not the verdict's name")
     except Exception as e:
         agg.violation(f"report-not-json:{type(e).__name__}", f"to_dict() is not JSON-serialisable: {str(e)[:120]}", w)
         return
